@@ -308,7 +308,7 @@ def load_findings():
 
 _re_states = re.compile(r"(\d+) states generated, (\d+) distinct states found")
 _re_inv = re.compile(r"Error: Invariant (\S+) is violated")
-_re_prop = re.compile(r"Error: (?:Temporal properties were violated|Action property (\S+) is violated|Property (\S+) is violated)")
+_re_prop = re.compile(r"Error: (?:Temporal properties were violated|Temporal property (\S+) was violated|Action property (\S+) is violated|Property (\S+) is violated)")
 
 
 def parse_tlc(r):
@@ -321,7 +321,7 @@ def parse_tlc(r):
     else:
         m = _re_prop.search(out)
         if m:
-            r.violated = m.group(1) or m.group(2) or "TemporalProperty"
+            r.violated = m.group(1) or m.group(2) or m.group(3) or "TemporalProperty"
     if r.violated is None and "Error: Deadlock reached" in out:
         r.violated = "Deadlock"
     if r.violated is None and re.search(r"Error: The postcondition .* is (violated|false)|POSTCONDITION .* violated|Error: Postcondition", out, re.I):
